@@ -619,6 +619,11 @@ def file_enter(it, fr, cm):
         from .interp import REAL_IO_MODULES
         if mod in REAL_IO_MODULES:
             raise Unsupported('with-statement on ' + type(cm).__name__ + ' (real I/O is not performed)')
+        gf = getattr(cm, 'func', None)
+        if type(cm).__name__ == '_GeneratorContextManager' and gf is not None and it.is_interp(getattr(gf, '__wrapped__', gf)):
+            raise Unsupported('generator-based context manager defined by the code under test (its body would run natively)')
+        if it.is_interp(getattr(type(cm).__enter__, '__func__', type(cm).__enter__)):
+            return it.call(fr, cm.__enter__, [], {})        # a context manager class of the code under test: interpreted
         try:
             return cm.__enter__()           # an ordinary concrete context manager (contextlib.suppress, locks, ...)
         except Exception as e:
@@ -631,6 +636,9 @@ def file_exit(it, fr, cm, pe):
     if isinstance(cm, Opaque) and cm.what == 'file':
         file_method(it, fr, cm, 'close', [], {})
         return False
+    if not isinstance(cm, Sym) and hasattr(type(cm), '__exit__') and it.is_interp(getattr(type(cm).__exit__, '__func__', type(cm).__exit__)):
+        r = it.call(fr, cm.__exit__, [None, None, None] if pe is None else [type(pe.exc), pe.exc, None], {})
+        return bool(fr.truth(r)) if hasattr(fr, 'truth') else bool(r)
     if not isinstance(cm, Sym) and hasattr(type(cm), '__exit__'):
         try:
             if pe is None:
